@@ -31,9 +31,16 @@ def _export_channels(obj, tmp, tag):
     chans = {}
     chans["bytes"] = bytes(obj)
     p = os.path.join(tmp, tag + ".a")
+    # the target already exists and is LARGER than the export (an older, bigger export; junk): the file
+    # afterwards has to be the export and nothing else
+    with open(p, "wb") as fh:
+        fh.write(b"\xa5" * (len(chans["bytes"]) + 4096))
     obj.export(p)
     with open(p, "rb") as fh:
         chans["path"] = fh.read()
+    obj.export(p)  # and once more onto its own previous export
+    with open(p, "rb") as fh:
+        chans["path-again"] = fh.read()
     p2 = os.path.join(tmp, tag + ".b")
     with open(p2, "wb") as fh:
         obj.export(fh)
